@@ -188,8 +188,8 @@ static aligned_t         trets[MAXT];
 #define JX_MAXS  8192
 static void    *jx_node[JX_MAXN];   /* ordinal -> address */
 static int      jx_nn = 0;
-static void    *jx_shadow[JX_MAXN]; /* the pool's free list as implied by the alloc / free calls seen (top last) */
-static int      jx_nsh = 0;
+static void    *jx_head = NULL;     /* mirror of the worker's free-list head (tc->cache of qt_mpool): set by every free, advanced by every alloc
+                                     * that returns it, reading the same word (first word of the node) the pool reads */
 static int      jx_poolbad = 0;
 static int      jx_sched[JX_MAXS];
 static int      jx_ns = 0;
@@ -216,9 +216,10 @@ static unsigned long long jx_canon(uintptr_t w)
 }
 static void *jx_alloc(struct qt_mpool_s *pool)
 {
-    void *p = (qpool_alloc)(pool);
-    if (jx_nsh > 0) {
-        if (jx_shadow[jx_nsh - 1] == p) { jx_nsh--; } else { jx_poolbad++; }
+    void *nxt = jx_head ? *(void **)jx_head : NULL;   /* cache->next, before the pool hands the node out */
+    void *p   = (qpool_alloc)(pool);
+    if (jx_head != NULL) {
+        if (jx_head == p) { jx_head = nxt; } else { jx_poolbad++; }
     }
     if (jx_on) { jx_ord_add(p); }
     return p;
@@ -226,7 +227,7 @@ static void *jx_alloc(struct qt_mpool_s *pool)
 static void jx_free(struct qt_mpool_s *pool, void *mem)
 {
     (qpool_free)(pool, mem);
-    if (jx_nsh < JX_MAXN) { jx_shadow[jx_nsh++] = mem; }
+    jx_head = mem;
 }
 #define JX_P(...) do { if (jx_len + 512 < sizeof jx_buf) { jx_len += (size_t)snprintf(jx_buf + jx_len, 512, __VA_ARGS__); } } while (0)
 /* " | ord:so:key:val:mark ... | ord:so:key:val:next:mark ..." : the list from B[0] (at most 64 nodes), then the pool's free
@@ -245,7 +246,7 @@ static void jx_snap(void)
         n++;
     }
     JX_P(" |");
-    void *f = jx_nsh ? jx_shadow[jx_nsh - 1] : NULL;
+    void *f = jx_head;
     n = 0;
     while (f != NULL && n < 64) {
         hash_entry *e = (hash_entry *)f;
@@ -404,7 +405,8 @@ int main(void)
             {   /* ordinals: the list in list order, then the free list from the node freed last */
                 marked_ptr_t c = D->B[0]; int n = 0;
                 while (PTR_OF(c) != NULL && n++ < 1000) { jx_ord_add(PTR_OF(c)); c = (marked_ptr_t)PTR_OF(c)->next; }
-                for (int i = jx_nsh - 1; i >= 0; i--) { jx_ord_add(jx_shadow[i]); }
+                void *f = jx_head; n = 0;
+                while (f != NULL && n++ < 1000 && jx_ord(f) < 0) { jx_ord_add(f); f = *(void **)f; }
             }
             sp_prob = 0; sp_spin = 0; sp_ctr = 0; sp_taken = 0; stamp = 0; go = 0; splog_n = 0; cur_t = -1;
             JX_P("J0");
